@@ -30,7 +30,7 @@ def c10_case(draw):
     M = [detmodel._row(draw, n) for _ in range(k)]
     target = [draw(st.sampled_from([0.5, 1.0, 2.0] if dom == 'pos' else [-1.0, 0.0, 0.5, 1.0, 2.0])) for _ in range(k)]
     x0 = [float(draw(st.integers(-2, 2))) for _ in range(n)]
-    a = {'atom': name, 'M': M, 'v': list(np.array(target) - np.array(M) @ np.array(x0)), 'kappa': 1.0, 'spell': draw(st.integers(0, 1))}
+    a = {'atom': name, 'M': M, 'v': list(np.array(target) - np.array(M) @ np.array(x0)), 'kappa': 1.0, 'spell': draw(st.integers(0, 5))}
     if name == 'pnorm':
         a['p'] = draw(st.sampled_from([3, [3, 2], 2.5]))
     if name == 'power':
